@@ -27,6 +27,12 @@ func (p *Prog) Pieces(v ssa.Value, env *KeyEnv) []Piece {
 	return p.pieces(v, env, 0, map[ssa.Value]bool{})
 }
 
+// PiecesOfList decomposes a [][]byte list (e.g. the variadic argument of a hash function) into the pieces of
+// its elements, in order.
+func (p *Prog) PiecesOfList(v ssa.Value, env *KeyEnv) ([]Piece, bool) {
+	return p.pieceList(v, env, 0, map[ssa.Value]bool{})
+}
+
 // PiecesAt is Pieces for a value of the callee of site, with the callee's parameters bound to site's actuals.
 func (p *Prog) PiecesAt(v ssa.Value, site *ssa.Call) []Piece {
 	if site == nil || v == nil || v.Parent() == nil {
